@@ -451,7 +451,7 @@ func (fv *FnV) run() (err error) {
 	}()
 	fn := fv.fn
 	fv.bornFn()
-	fv.hasRecover = fn.Recover != nil
+	fv.hasRecover = fn.Recover != nil || closureRunsUnderParentRecover(fn)
 	fv.base0 = fv.newBase()
 	fv.now0 = fv.c.Fresh("now0", sInt)
 	st := &State{pc: "true", heap: map[string]string{}, base: fv.base0, now: fv.now0}
@@ -514,6 +514,45 @@ func (fv *FnV) run() (err error) {
 }
 
 type unsupported string
+
+// closureRunsUnderParentRecover: a closure that is only ever passed as a call argument by a parent that recovers
+// (sort.Slice's less function in Sort) panics into that parent's recover.
+func closureRunsUnderParentRecover(fn *ssa.Function) bool {
+	p := fn.Parent()
+	if p == nil || p.Recover == nil {
+		return false
+	}
+	for _, b := range p.Blocks {
+		for _, ins := range b.Instrs {
+			mc, ok := ins.(*ssa.MakeClosure)
+			if !ok || mc.Fn != fn {
+				continue
+			}
+			for _, ref := range *mc.Referrers() {
+				c, isCall := ref.(*ssa.Call)
+				if !isCall {
+					if _, dbg := ref.(*ssa.DebugRef); dbg {
+						continue
+					}
+					return false
+				}
+				if c.Common().Value == mc {
+					continue
+				}
+				isArg := false
+				for _, a := range c.Common().Args {
+					if a == mc {
+						isArg = true
+					}
+				}
+				if !isArg {
+					return false
+				}
+			}
+		}
+	}
+	return true
+}
 
 func (fv *FnV) findLoops() {
 	fn := fv.fn
